@@ -69,13 +69,13 @@ macro_rules! prim_try_new {
         }
     };
 }
-// @unit name=prim_try_new_len0 props=C09,C01 kind=bounded bound=values_len=0_of_4_any_window_bitmap_window<=8_bits_any_bit_offset<8 fns=PrimitiveArray::try_new,PrimitiveArray::value,PrimitiveArray::is_null,PrimitiveArray::null_count
+// @unit name=prim_try_new_len0 props=C09,C01 kind=bounded bound=values_len=0_of_4_any_window_bitmap_window<=8_bits_any_bit_offset<8 fns=PrimitiveArray::try_new,PrimitiveArray::value,PrimitiveArray::is_null,PrimitiveArray::null_count tier=quick
 prim_try_new!(prim_try_new_len0, 0);
-// @unit name=prim_try_new_len1 props=C09,C01 kind=bounded bound=values_len=1_of_4_any_window_bitmap_window<=8_bits_any_bit_offset<8 fns=PrimitiveArray::try_new,PrimitiveArray::value,PrimitiveArray::is_null,PrimitiveArray::null_count
+// @unit name=prim_try_new_len1 props=C09,C01 kind=bounded bound=values_len=1_of_4_any_window_bitmap_window<=8_bits_any_bit_offset<8 fns=PrimitiveArray::try_new,PrimitiveArray::value,PrimitiveArray::is_null,PrimitiveArray::null_count tier=quick
 prim_try_new!(prim_try_new_len1, 1);
-// @unit name=prim_try_new_len3 props=C09,C01 kind=bounded bound=values_len=3_of_4_any_window_bitmap_window<=8_bits_any_bit_offset<8 fns=PrimitiveArray::try_new,PrimitiveArray::value,PrimitiveArray::is_null,PrimitiveArray::null_count
+// @unit name=prim_try_new_len3 props=C09,C01 kind=bounded bound=values_len=3_of_4_any_window_bitmap_window<=8_bits_any_bit_offset<8 fns=PrimitiveArray::try_new,PrimitiveArray::value,PrimitiveArray::is_null,PrimitiveArray::null_count tier=quick
 prim_try_new!(prim_try_new_len3, 3);
-// @unit name=prim_try_new_len4 props=C09,C01 kind=bounded bound=values_len=4_of_4_bitmap_window<=8_bits_any_bit_offset<8 fns=PrimitiveArray::try_new,PrimitiveArray::value,PrimitiveArray::is_null,PrimitiveArray::null_count
+// @unit name=prim_try_new_len4 props=C09,C01 kind=bounded bound=values_len=4_of_4_bitmap_window<=8_bits_any_bit_offset<8 fns=PrimitiveArray::try_new,PrimitiveArray::value,PrimitiveArray::is_null,PrimitiveArray::null_count tier=quick
 prim_try_new!(prim_try_new_len4, 4);
 
 // Contract (C01, C02): for an Int32 array of 4 rows (values and validity bits symbolic, validity optional,
@@ -128,21 +128,21 @@ macro_rules! prim_slice {
         }
     };
 }
-// @unit name=prim_slice_0_4 props=C01,C02 kind=bounded bound=rows=4_window=(0,4)_bitmap_bit_offset=0 fns=PrimitiveArray::slice,PrimitiveArray::value,PrimitiveArray::is_null,PrimitiveArray::null_count
+// @unit name=prim_slice_0_4 props=C01,C02 kind=bounded bound=rows=4_window=(0,4)_bitmap_bit_offset=0 fns=PrimitiveArray::slice,PrimitiveArray::value,PrimitiveArray::is_null,PrimitiveArray::null_count tier=quick
 prim_slice!(prim_slice_0_4, 0, 4, 0);
-// @unit name=prim_slice_1_2 props=C01,C02 kind=bounded bound=rows=4_window=(1,2)_bitmap_bit_offset=5 fns=PrimitiveArray::slice,PrimitiveArray::value,PrimitiveArray::is_null,PrimitiveArray::null_count
+// @unit name=prim_slice_1_2 props=C01,C02 kind=bounded bound=rows=4_window=(1,2)_bitmap_bit_offset=5 fns=PrimitiveArray::slice,PrimitiveArray::value,PrimitiveArray::is_null,PrimitiveArray::null_count tier=quick
 prim_slice!(prim_slice_1_2, 1, 2, 5);
-// @unit name=prim_slice_1_3 props=C01,C02 kind=bounded bound=rows=4_window=(1,3)_bitmap_bit_offset=0 fns=PrimitiveArray::slice,PrimitiveArray::value,PrimitiveArray::is_null,PrimitiveArray::null_count tier=thorough note=not_confirmed_at_checkpoint
+// @unit name=prim_slice_1_3 props=C01,C02 kind=bounded bound=rows=4_window=(1,3)_bitmap_bit_offset=0 fns=PrimitiveArray::slice,PrimitiveArray::value,PrimitiveArray::is_null,PrimitiveArray::null_count tier=quick
 prim_slice!(prim_slice_1_3, 1, 3, 0);
-// @unit name=prim_slice_3_1 props=C01,C02 kind=bounded bound=rows=4_window=(3,1)_bitmap_bit_offset=5 fns=PrimitiveArray::slice,PrimitiveArray::value,PrimitiveArray::is_null,PrimitiveArray::null_count tier=thorough note=not_confirmed_at_checkpoint
+// @unit name=prim_slice_3_1 props=C01,C02 kind=bounded bound=rows=4_window=(3,1)_bitmap_bit_offset=5 fns=PrimitiveArray::slice,PrimitiveArray::value,PrimitiveArray::is_null,PrimitiveArray::null_count tier=quick
 prim_slice!(prim_slice_3_1, 3, 1, 5);
-// @unit name=prim_slice_4_0 props=C01,C02 kind=bounded bound=rows=4_window=(4,0)_bitmap_bit_offset=3 fns=PrimitiveArray::slice,PrimitiveArray::value,PrimitiveArray::is_null,PrimitiveArray::null_count tier=thorough note=not_confirmed_at_checkpoint
+// @unit name=prim_slice_4_0 props=C01,C02 kind=bounded bound=rows=4_window=(4,0)_bitmap_bit_offset=3 fns=PrimitiveArray::slice,PrimitiveArray::value,PrimitiveArray::is_null,PrimitiveArray::null_count tier=quick
 prim_slice!(prim_slice_4_0, 4, 0, 3);
 
 // Contract (C01): value(i) on an index >= len is rejected by a checked panic (may-reject): the line
 // after the call is reached only for i < len, so there is no unchecked read past the window of a slice
 // even though the parent allocation is larger.
-// @unit name=prim_value_oob_rejected props=C01,C09 kind=bounded bound=rows=4_all_windows mayreject=1 fns=PrimitiveArray::value
+// @unit name=prim_value_oob_rejected props=C01,C09 kind=bounded bound=rows=4_all_windows mayreject=1 fns=PrimitiveArray::value tier=quick
 #[kani::proof]
 #[kani::unwind(10)]
 #[kani::stub(alloc::fmt::format, stub_format)]
